@@ -222,8 +222,9 @@ func BearerAuth(name string, authenticate ScopedTokenAuthentication) runtime.Aut
 	return ScopedAuthenticator(func(r *ScopedAuthRequest) (bool, interface{}, error) {
 		var token string
 		hdr := r.Request.Header.Get(runtime.HeaderAuthorization)
-		if strings.HasPrefix(hdr, prefix) {
-			token = strings.TrimPrefix(hdr, prefix)
+		// the auth-scheme is case-insensitive (RFC 7235, section 2.1)
+		if len(hdr) > len(prefix) && strings.EqualFold(hdr[:len(prefix)], prefix) {
+			token = hdr[len(prefix):]
 		}
 		if token == "" {
 			qs := r.Request.URL.Query()
@@ -252,8 +253,9 @@ func BearerAuthCtx(name string, authenticate ScopedTokenAuthenticationCtx) runti
 	return ScopedAuthenticator(func(r *ScopedAuthRequest) (bool, interface{}, error) {
 		var token string
 		hdr := r.Request.Header.Get(runtime.HeaderAuthorization)
-		if strings.HasPrefix(hdr, prefix) {
-			token = strings.TrimPrefix(hdr, prefix)
+		// the auth-scheme is case-insensitive (RFC 7235, section 2.1)
+		if len(hdr) > len(prefix) && strings.EqualFold(hdr[:len(prefix)], prefix) {
+			token = hdr[len(prefix):]
 		}
 		if token == "" {
 			qs := r.Request.URL.Query()
